@@ -477,6 +477,9 @@ func init() {
 	}
 	kvIter := func(c *libCall) (Val, bool) {
 		v, ok := c.args[0].(*ViewVal)
+		if iv, isI := c.args[0].(*IfaceVal); isI {
+			v, ok = iv.Payload.(*ViewVal)
+		}
 		if !ok {
 			return nil, false
 		}
@@ -491,34 +494,13 @@ func init() {
 		return WithGo(App(SBytes, "kf", IntLit(-1), App(SBytes, "bint", c.arg(0)), bnilT, bnilT, bnilT), c.sig.Results().At(0).Type()), true
 	}
 	libModels[sdkPkg+"BigEndianToUint64"] = func(c *libCall) (Val, bool) {
+		// inverse of Uint64ToBigEndian on its image; 0 on anything else (counters are only ever written by
+		// Uint64ToBigEndian: assumption)
 		b := c.arg(0)
-		r := c.st.FreshOf("be2u", c.sig.Results().At(0).Type())
-		// inverse of Uint64ToBigEndian on its image
-		c.st.Assume(Implies(And(App(SBool, "(_ is kf)", b), Eq(App(SInt, "kf_id", b), IntLit(-1)), App(SBool, "(_ is bint)", App(SBytes, "kf_1", b))), Eq(r, App(SInt, "bint_v", App(SBytes, "kf_1", b)))))
-		c.st.Assume(Implies(Eq(App(SInt, "blen", b), IntLit(0)), Eq(r, IntLit(0))))
+		r := WithGo(App(SInt, "be2u64", b), c.sig.Results().At(0).Type())
+		c.fr.ex.Assumed["sdk.BigEndianToUint64 modelled as the inverse of Uint64ToBigEndian (0 on other byte strings)"] = true
+		c.st.TypeFacts(r, r.Go, 0)
 		return r, true
-	}
-
-	libModels["strings.Join"] = func(c *libCall) (Val, bool) {
-		sl := c.arg(0)
-		sepv, ok := c.args[1].(T)
-		if !ok {
-			return nil, false
-		}
-		sep, ok := c.fr.ex.Lits.Lookup(sepv)
-		n, okn := constSliceLen(sl)
-		if !ok || !okn || n < 1 || n > 4 {
-			return nil, false
-		}
-		elemT := c.sig.Params().At(0).Type().Underlying().(*types.Slice).Elem()
-		var parts []T
-		for i := 0; i < n; i++ {
-			parts = append(parts, c.st.SliceElem(sl, IntLit(int64(i)), elemT))
-		}
-		r := c.fr.ex.JoinTerm(parts, sep)
-		r = c.st.Name("joined", r)
-		c.st.Assume(Not(Eq(r, bnilT)))
-		return WithGo(r, types.Typ[types.String]), true
 	}
 
 	for _, an := range []string{"AccAddress", "ValAddress", "ConsAddress"} {
@@ -650,6 +632,51 @@ func init() {
 		c.st.Assume(Implies(And(App(SBool, "(_ is kf)", b), Eq(App(SInt, "kf_id", b), IntLit(-1)), App(SBool, "(_ is bint)", App(SBytes, "kf_1", b))), Eq(r, App(SInt, "bint_v", App(SBytes, "kf_1", b)))))
 		c.st.Assume(Eq(r, App(SInt, "wrapu", App(SInt, "be2u64", b), T{S: "18446744073709551616", Sort: SInt})))
 		return r, true
+	}
+
+	// ---- sdk.Coin / sdk.Coins ------------------------------------------------------------------
+	libModels[sdkPkg+"NewCoin"] = func(c *libCall) (Val, bool) {
+		ct := c.sig.Results().At(0).Type()
+		si := c.fr.ex.Sorts.StructInfoOf(ct)
+		if si == nil || len(si.Fields) != 2 {
+			return nil, false
+		}
+		d, a := c.arg(0), c.arg(1)
+		c.panicUnless(And(Not(inil(a)), App(SBool, ">=", ival(a), IntLit(0))), "NewCoin with a nil or negative amount")
+		return WithGo(App(si.Sort, si.Ctor, d, a), ct), true
+	}
+	libModels[sdkPkg+"NewCoins"] = func(c *libCall) (Val, bool) {
+		// NewCoins(coin): the one-element set, or the empty set when the amount is zero (zero coins are dropped)
+		sl := c.arg(0)
+		n, ok := constSliceLen(sl)
+		if !ok || n != 1 {
+			return nil, false
+		}
+		rt := c.sig.Results().At(0).Type()
+		elem := rt.Underlying().(*types.Slice).Elem()
+		si := c.fr.ex.Sorts.StructInfoOf(elem)
+		if si == nil {
+			return nil, false
+		}
+		coin := c.st.SliceElem(sl, IntLit(0), elem)
+		amt := c.fr.ex.Sorts.Field(coin, si, 1)
+		base := c.st.NewRef()
+		name, h, es := c.st.sliceHeap(elem)
+		arr := Store(Select(h, App(SInt, "sbase", sl), "(Array Int "+es+")"), IntLit(0), coin)
+		c.st.heaps[name] = c.st.Name(name, Store(h, base, arr))
+		ln := Ite(Eq(ival(amt), IntLit(0)), IntLit(0), IntLit(1))
+		return WithGo(App(SSlice, "mkSlice", base, IntLit(0), ln, IntLit(1)), rt), true
+	}
+	libModels[mathPkg+"NewIntWithDecimal"] = func(c *libCall) (Val, bool) {
+		n, d := c.arg(0), c.arg(1)
+		r := c.st.Name("iwd", App(SInt, "*", n, App(SInt, "pow10", d)))
+		c.panicUnless(fits256(r), "NewIntWithDecimal overflow")
+		return intv(r), true
+	}
+	libModels["strings.Compare"] = func(c *libCall) (Val, bool) {
+		a, b := c.arg(0), c.arg(1)
+		lt := App(SBool, "bytes_lt", a, b)
+		return WithGo(Ite(Eq(a, b), IntLit(0), Ite(lt, IntLit(-1), IntLit(1))), types.Typ[types.Int]), true
 	}
 
 	// ---- time -----------------------------------------------------------------------------
